@@ -1,6 +1,6 @@
 SPECIFICATION Spec
 CONSTANTS
-  Fams = {"lshape", "para", "curved"}
+  Fams = {"overlap", "nested"}
   MaxRoutes = 3
   PerClass = 4
   DEV_RemoveNoRebuild = FALSE
